@@ -214,7 +214,17 @@ def do_correlation_function(ctx, rng, psi, vec, sites, kind, qt, case):
     s1 = None if rng.random() < 0.4 else sorted(int(x) for x in rng.permutation(L)[:int(rng.integers(1, L + 1))])
     s2 = None if rng.random() < 0.4 else sorted(int(x) for x in rng.permutation(L)[:int(rng.integers(1, L + 1))])
     herm = False
-    case['options'] = {'ops1': n1, 'ops2': n2, 'sites1': s1, 'sites2': s2, 'opstr': opstr, 'str_on_first': sof, 'fermionic': ferm}
+    if opstr is None and rng.random() < 0.4:
+        # the documented shortcut: same sites and ops2 = ops1^dagger -> C is Hermitian and only one triangle is computed
+        try:
+            n2 = s0.get_hc_op_name(n1)
+            s2 = s1
+            herm = True
+            ctx.count('correlation_function.hermitian_flag')
+        except Exception:
+            herm = False
+    case['options'] = {'ops1': n1, 'ops2': n2, 'sites1': s1, 'sites2': s2, 'opstr': opstr, 'str_on_first': sof, 'fermionic': ferm,
+                       'hermitian': herm}
     got = np.asarray(psi.correlation_function(n1, n2, sites1=s1, sites2=s2, opstr=opstr, str_on_first=sof, hermitian=herm))
     I = range(L) if s1 is None else s1
     J = range(L) if s2 is None else s2
@@ -222,12 +232,12 @@ def do_correlation_function(ctx, rng, psi, vec, sites, kind, qt, case):
     if got.shape != exp.shape:
         ctx.violation('correlation_function:shape', '%r expected %r' % (got.shape, exp.shape), case)
         return
-    bad = np.abs(got - exp) > 1e-9 * np.maximum(1, np.abs(exp))
+    bad = ~(np.abs(got - exp) <= 1e-9 * np.maximum(1, np.abs(exp)))
     if np.any(bad):
         x, y = [int(t) for t in np.argwhere(bad)[0]]
         a, b = list(I)[x], list(J)[y]
         rel = 'i<j' if a < b else ('i=j' if a == b else 'i>j')
-        ctx.violation('correlation_function:wrong:%s:%s%s' % (rel, 'fermionic' if ferm else 'bosonic', ':opstr' if opstr else ''),
+        ctx.violation('correlation_function:wrong:%s:%s%s%s' % (rel, 'fermionic' if ferm else 'bosonic', ':opstr' if opstr else '', ':hermitian-flag' if herm else ''),
                       'C[%d,%d] (i=%d,j=%d) = %r expected %r' % (x, y, a, b, got[x, y], exp[x, y]), case)
 
 
@@ -502,6 +512,15 @@ def do_overlap(ctx, rng, psi, vec, sites, kind, qt, case):
     got2 = phi.overlap(psi)
     if not close(got2, np.conj(exp)):
         ctx.violation('overlap:not-conjugate-symmetric', 'got %r expected %r' % (got2, np.conj(exp)), case)
+        return
+    if rng.random() < 0.5:
+        # ignore_form=True contracts the stored tensors as they are: for two states in right-canonical form that is the overlap
+        psi.convert_form('B')
+        phi.convert_form('B')
+        ctx.count('overlap.ignore_form')
+        got3 = psi.overlap(phi, ignore_form=True)
+        if not close(got3, exp):
+            ctx.violation('overlap:ignore_form:wrong', 'got %r expected <psi|phi> = %r' % (got3, exp), case)
 
 
 def do_sample_measurements(ctx, rng, psi, vec, sites, kind, qt, case):
@@ -640,6 +659,21 @@ def do_env(ctx, rng, psi, vec, sites, kind, qt, case):
     exp = np.vdot(bra, dense.term_matrix(sites, term) @ ket)
     if not close(got, exp):
         ctx.violation('MPSEnvironment.expectation_value_term:wrong', 'term %r got %r expected %r' % (term, got, exp), case)
+        return
+    # correlation function between two different states: all orderings i<j, i=j, i>j carry the two norms once
+    name2 = opnames(sites[0], rng, 'bosonic')
+    if all(name2 in s_.opnames for s_ in sites) and vec.size <= 4096:
+        C = np.asarray(env.correlation_function(name, name2))
+        ctx.count('env.correlation_function')
+        O1 = [dense.op_on_chain(sites, {k: dense.op_dense(sites[k], name)}) for k in range(L)]
+        O2 = [dense.op_on_chain(sites, {k: dense.op_dense(sites[k], name2)}) for k in range(L)]
+        expC = np.array([[np.vdot(bra, O1[a] @ (O2[b] @ ket)) for b in range(L)] for a in range(L)])
+        badC = ~(np.abs(C - expC) <= 1e-8 * np.maximum(1, np.abs(expC)))
+        if C.shape != expC.shape or np.any(badC):
+            x, y = [int(t) for t in np.argwhere(badC)[0]] if C.shape == expC.shape else (0, 0)
+            rel = 'i<j' if x < y else ('i=j' if x == y else 'i>j')
+            ctx.violation('MPSEnvironment.correlation_function:wrong:%s' % rel, 'C[%d,%d] = %r expected <bra|O1 O2|ket> = %r (norms %r, %r)' %
+                          (x, y, C[x, y] if C.shape == expC.shape else None, expC[x, y], c1, c2), case)
 
 
 def do_mutinf(ctx, rng, psi, vec, sites, kind, qt, case):
